@@ -267,6 +267,11 @@ def check_dispatch(ctx, rule_prefix="R", orders=ORDERS, want_roles=True, kaisers
                         ctx.call_sites += len(R.kcalls)
                         fam = FAMILY[order]
                         want = kernel_key(fam, "csd" if iscsd else "auto", backend)
+                        loop_raises = any(isinstance(k_, int) and sm_.get("result") and sm_["result"][0] == "raise" for k_, sm_ in R.I.loop_summaries.items())
+                        if not R.kcalls and (isinstance(r, AlwaysRaises) or loop_raises):
+                            # the abstract configuration is an admissible one (valid order / mode / backend / window, a valid request): the dispatcher
+                            # must reach a kernel; raising on every path is a failure of every property that speaks about the result
+                            ctx.violated(f"{rule_prefix}1-dispatch", construct, "the method raises on every path for this admissible configuration: no spectrum is computed", where); continue
                         if len(R.kcalls) != 1:
                             ctx.ob(f"{rule_prefix}1-dispatch", construct, VIOLATED if len(R.kcalls) > 1 else UNKNOWN,
                                    f"{len(R.kcalls)} kernel calls reached for one configuration: {[c[0] for c in R.kcalls]}", where); continue
